@@ -99,6 +99,39 @@ def copy {α} (dst src : List α) : List α × Int :=
   let n := Nat.min dst.length src.length
   (src.take n ++ dst.drop n, n)
 
+/-! ### maps and sorting -/
+
+/-- a Go map with comparable keys, as an association list without duplicate keys (iteration order is NOT modelled:
+    the translator refuses `range` over a map) -/
+abbrev Map (κ ν : Type) := List (κ × ν)
+
+/-- `v, ok := m[k]` -/
+def mapGet {κ ν} [BEq κ] (m : Map κ ν) (k : κ) (zero : ν) : ν × Bool :=
+  match m.lookup k with
+  | some v => (v, true)
+  | none => (zero, false)
+
+/-- `m[k] = v` -/
+def mapSet {κ ν} [BEq κ] (m : Map κ ν) (k : κ) (v : ν) : Map κ ν := (k, v) :: m.filter (fun p => !(p.1 == k))
+
+/-- `delete(m, k)` -/
+def mapDel {κ ν} [BEq κ] (m : Map κ ν) (k : κ) : Map κ ν := m.filter (fun p => !(p.1 == k))
+
+/-- insertion of `x` before the first element it is less than -/
+def insertBy {α} (less : α → α → M Bool) (x : α) : List α → M (List α)
+  | [] => pure [x]
+  | y :: ys => do
+    if ← less x y then pure (x :: y :: ys)
+    else do
+      let r ← insertBy less x ys
+      pure (y :: r)
+
+/-- `slices.SortFunc(xs, less)`, modelled as the STABLE insertion sort. The library promises only some permutation
+    sorted by `less`; where `less` is a strict total order on the elements present the result is unique and this
+    is it (the `src` correspondence stream compares on such inputs). -/
+def sortFunc {α} (xs : List α) (less : α → α → M Bool) : M (List α) :=
+  xs.foldlM (fun acc x => insertBy less x acc) []
+
 /-! ### integers -/
 
 def idiv (a b : Int) : M Int := if b = 0 then throw .divzero else pure (Int.tdiv a b)
